@@ -4,6 +4,7 @@ import (
 	"encoding/hex"
 	"encoding/json"
 	"github.com/brutella/hc/util"
+	"os"
 	"strings"
 )
 
@@ -78,6 +79,11 @@ func (db *database) Entities() (es []Entity, err error) {
 	if ks, err = db.storage.KeysWithSuffix(".entity"); err == nil {
 		for _, k := range ks {
 			if e, err = db.entityForKey(k); err != nil {
+				if os.IsNotExist(err) {
+					// deleted after the keys were listed
+					err = nil
+					continue
+				}
 				return nil, err
 			}
 			es = append(es, e)
